@@ -2,6 +2,7 @@
 //! Links the crates of the repository under test (path dependencies) and judges
 //! executions of the real code against the reference model in `vref`.
 
+mod logsub;
 mod collect;
 mod cprp;
 mod dec;
